@@ -1324,8 +1324,11 @@ func (m *Manager) handleMessage(tm *TaskmanMessage) error {
 
 		// This will check if the task update is from a reconciliation, as well as whether the task
 		// is in a state in which a mesos Kill call is possible.
-		// Reconcilation tasks are not part of the taskman.roster
+		// Only tasks which are not part of the taskman.roster are killed: those are leftovers of a previous
+		// core instance. Mesos also answers the implicit reconciliation sent after a mere reconnection,
+		// and then it reports the tasks of the live environments of this instance, which must survive.
 		if mesosStatus.GetReason().String() == "REASON_RECONCILIATION" &&
+			m.GetTask(mesosStatus.TaskID.GetValue()) == nil &&
 			(mesosState == mesos.TASK_STAGING ||
 				mesosState == mesos.TASK_STARTING ||
 				mesosState == mesos.TASK_RUNNING ||
